@@ -55,3 +55,122 @@ def seeded(rel, old, new, expect, why='', **kw) -> Variant:
 def neutral(rel, old, new, why='', **kw) -> Variant:
     rels = [rel] if isinstance(rel, str) else list(rel)
     return Variant('neutral', rels, sub(rels[0], old, new, **kw), None, why)
+
+
+# ---- syntax-tree edits (comments and layout are irrelevant to every rule: findings are keyed by
+# construct, never by line) -----------------------------------------------------------------------
+import ast as _ast
+
+
+def find_def(tree, qualname: str):
+    """The FunctionDef / ClassDef named by a dotted path below ``tree`` (None if absent)."""
+    node = tree
+    for part in qualname.split('.'):
+        nxt = None
+        for st in _ast.walk(node) if node is tree else node.body:
+            if isinstance(st, (_ast.FunctionDef, _ast.AsyncFunctionDef, _ast.ClassDef)) and st.name == part:
+                nxt = st
+                break
+        if nxt is None:
+            return None
+        node = nxt
+    return node
+
+
+def stmts(src: str):
+    import textwrap
+    return _ast.parse(textwrap.dedent(src)).body
+
+
+def expr(src: str):
+    return _ast.parse(src, mode='eval').body
+
+
+def ast_edit(rel: str, fn):
+    """Edit computed on the syntax tree of ``rel``: ``fn(tree)`` mutates the tree and returns
+    True when it changed something (False / None: anchor not found -> variant skipped)."""
+    def edit(files: dict):
+        tree = _ast.parse(files[rel])
+        if not fn(tree):
+            return None
+        files[rel] = _ast.unparse(_ast.fix_missing_locations(tree)) + '\n'
+        return files
+    return edit
+
+
+def replace_where(tree, pred, make, *, scope: str | None = None, nth: int = 0, count: int = 1):
+    """Replace the nth (..nth+count) node satisfying ``pred`` (inside ``scope`` if given) by
+    ``make(node)`` (a node, a list of statements, or None to delete a statement)."""
+    root = find_def(tree, scope) if scope else tree
+    if root is None:
+        return False
+    hits = []
+    for parent_ in _ast.walk(root):
+        for field, val in _ast.iter_fields(parent_):
+            if isinstance(val, list):
+                for i, x in enumerate(val):
+                    if isinstance(x, _ast.AST) and pred(x):
+                        hits.append((getattr(x, 'lineno', 0), getattr(x, 'col_offset', 0), parent_, field, i, x))
+            elif isinstance(val, _ast.AST) and pred(val):
+                hits.append((getattr(val, 'lineno', 0), getattr(val, 'col_offset', 0), parent_, field, None, val))
+    hits.sort(key=lambda h: (h[0], h[1]))
+    hits = hits[nth:nth + count]
+    if not hits:
+        return False
+    for _, _, parent_, field, i, x in reversed(hits):
+        new = make(x)
+        if i is None:
+            setattr(parent_, field, new)
+        else:
+            lst = getattr(parent_, field)
+            if new is None:
+                del lst[i]
+                if not lst and field == 'body':
+                    lst.append(_ast.Pass())
+            elif isinstance(new, list):
+                lst[i:i + 1] = new
+            else:
+                lst[i] = new
+    return True
+
+
+def src_is(text: str):
+    """Predicate: the node unparses to ``text`` (layout-insensitive)."""
+    want = _ast.unparse(_ast.parse(text).body[0]) if not text.startswith('expr:') else _ast.unparse(expr(text[5:]))
+    is_expr = text.startswith('expr:')
+
+    def pred(n):
+        if is_expr and not isinstance(n, _ast.expr):
+            return False
+        if not is_expr and not isinstance(n, _ast.stmt):
+            return False
+        try:
+            return _ast.unparse(n) == want
+        except Exception:
+            return False
+    return pred
+
+
+def starts(text: str):
+    """Predicate: a statement whose unparsed text starts with ``text``."""
+    def pred(n):
+        if not isinstance(n, _ast.stmt):
+            return False
+        try:
+            return _ast.unparse(n).startswith(text)
+        except Exception:
+            return False
+    return pred
+
+
+def tseeded(rel, fn, expect, why='') -> Variant:
+    return Variant('seeded', [rel], ast_edit(rel, fn), expect, why)
+
+
+def tneutral(rel, fn, why='') -> Variant:
+    return Variant('neutral', [rel], ast_edit(rel, fn), None, why)
+
+
+def roundtrip(rel) -> Variant:
+    """Behaviour-neutral: the whole file re-rendered by ast.unparse (all comments dropped, layout changed)."""
+    return Variant('neutral', [rel], ast_edit(rel, lambda tree: True), None, 'file re-rendered from its syntax tree')
